@@ -816,14 +816,17 @@ def execute_wrapper(scenario, tape):
                 for op in scenario['ops']:
                     w.sim.yield_point(60)
                     if op[0] == 'send':
+                        if st.get('send_failed'):
+                            continue
                         data = bytes.fromhex(op[1])
                         try:
                             ws.send(data)
                         except BlockingIOError:
                             # the send was NOT acknowledged: a sane caller
-                            # stops writing to this stream
+                            # stops writing to this stream - what is still
+                            # to be received decrypts as before
                             st['send_failed'] = True
-                            break
+                            continue
                         st['sent'] += data
                     elif op[0] == 'recv':
                         st['got'] += ws.recv(op[1])
